@@ -305,6 +305,11 @@ def check_crash(case, rec: Rec) -> None:
     rec.nontrivial = True
 
 
+def sample_view(case):
+    return f"{case['flavour']}: pages {sorted(case['dir'])}; edits before the command: " + "; ".join(s["op"] for s in case["steps"]) + \
+        "; then every effect boundary of the command is a crash point"
+
+
 def parts(tier):
     quick = tier == "quick"
     strat = (lambda: _scenario().map(lambda c: dict(c, real_every=23))) if quick else \
